@@ -277,7 +277,7 @@ def check_severity(ctx, out):
             for br, vals, e in util.guards(ctx, sv, bi):
                 txt = render(e, 400)
                 if e[0] == "discr" and re.search(r"HashMap::get\(", txt) and "'severity'" in txt:
-                    arm = "none" if vals == {0} else "some"
+                    arm = "none" if 1 not in vals else "some"
             ev = Es.rvalue(s["rv"])
             is_default = ev[0] == "agg" and ev[1].endswith("Result::Ok") and ev[2] and ev[2][0][0] == "agg" and ev[2][0][1] == adt["path"] + "::Error"
             if arm == "none" and is_default:
